@@ -146,6 +146,8 @@ def run(chk):
     if fail:
         fail["explains"] = ["build:Poupool.Properties.C10"] + THEOREMS
         chk.violation("EcoMode.compute:phase-lengths", "the real EcoMode.compute yields a negative pause / pool phase, a tank phase below one minute, or raises: " + fail["observed"], fail)
+    # 4b. literal reading of the statement vs scheduled heating late in the day (known finding, replayed on every run)
+    late_heating_finding(chk)
     # 5. closed loop
     mfail, cbad = closed_loop(chk, 112 if quick else 800)
     if mfail:
@@ -157,6 +159,28 @@ def run(chk):
         )
     chk.extra["distinct_nontrivial"] = len(THEOREMS)
     chk.extra["rule"] = "15 Lean theorems over Model/Eco.lean + EcoConfig regenerated from the source; EcoMode correspondence op-exact; closed-loop correspondence on whole virtual days of the real composed system; monitors decide the property's statement on the real code"
+
+
+LATE_HEATING = {"kind": "heat", "start": "2024-06-02T22:50:16", "daily": 25200, "period": 8, "tank": 0.0, "reset_hour": 0,
+                "heat": {"start_hour": 21, "setpoint": 26.0, "pool": 24.5, "minutes": 145}, "days": (4184 + 86400 + 120) / 86400, "whole_days": 1}
+
+
+def late_heating_finding(chk):
+    """The statement read literally ('runs for the configured daily duration to within 3 minutes') is violated when the
+    scheduled heating runs after the quota is used up: the heat pump needs the circulation pump.  The closed-loop monitor
+    therefore bounds the pump time by max(quota, pump time at the end of the day's last heating interlude) + 180 s; the
+    literal violation is exhibited here on the real code and recorded as an open known finding."""
+    old = ec.STRICT_HEAT_UPPER
+    ec.STRICT_HEAT_UPPER = True
+    try:
+        r = ec.loop_case((dict(LATE_HEATING), ec.EPS_US))
+    finally:
+        ec.STRICT_HEAT_UPPER = old
+    if r.get("monitor"):
+        d = r["monitor"][0]
+        chk.violation("Filtration.eco-cycle:quota-exceeded-by-late-heating",
+                      f"scheduled heating at 21:00 for 145 min after the quota was used up: pump ran {d['pump_on_us'] / ec.US:.0f} s on a day configured for {d['expected_us'] / ec.US:.0f} s",
+                      {"kind": "loop", "scenario": LATE_HEATING, "days": r["monitor"]})
 
 
 def search(chk):
